@@ -88,6 +88,7 @@ type replayResult struct {
 	AssumeBad []string `json:"assume_bad"`
 	Panic     string   `json:"panic"`
 	Unknown   bool     `json:"unknown_harness"`
+	Notes     []string `json:"notes"`
 }
 
 func runReplay(harness string, inputs map[string]interface{}) (*replayResult, string) {
@@ -156,7 +157,7 @@ func replayNative(harness, target string, inputs map[string]interface{}, f *sx.F
 				return true, ""
 			}
 		}
-		return false, fmt.Sprintf("label not reached natively (reached %v, failed %v, panic %q)", r.Reached, r.Failed, firstLine(r.Panic))
+		return false, fmt.Sprintf("label not reached natively (reached %v, failed %v, panic %q, notes %v)", r.Reached, r.Failed, firstLine(r.Panic), r.Notes)
 	}
 	if target == "panic-free" {
 		if r.Panic != "" {
@@ -169,7 +170,7 @@ func replayNative(harness, target string, inputs map[string]interface{}, f *sx.F
 			return true, ""
 		}
 	}
-	return false, fmt.Sprintf("assertion held natively (failed %v, reached %v, panic %q)", r.Failed, r.Reached, firstLine(r.Panic))
+	return false, fmt.Sprintf("assertion held natively (failed %v, reached %v, panic %q, notes %v)", r.Failed, r.Reached, firstLine(r.Panic), r.Notes)
 }
 
 func firstLine(s string) string {
